@@ -832,7 +832,7 @@ def selftest():
     rep = driver.Report("fixture", "quick")
     r_endian.check(rep, u, [f for f in u.function_list if f.name.startswith("fx_")])
     fixtures.expect(rep, ["fx_inc_bad", "fx_store_bad", "fx_lt_bad", "fx_local_bad", "fx_double_bad"],
-                    ["fx_inc_ok", "fx_cmp_ok", "fx_copy_ok", "fx_flip_ok", "fx_count_get", "fx_count_set", "fx_ttl_get"], "R-ENDIAN")
+                    ["fx_inc_ok", "fx_cmp_ok", "fx_copy_ok", "fx_flip_ok", "fx_lt_tbl_ok", "fx_count_get", "fx_count_set", "fx_ttl_get"], "R-ENDIAN")
     u = fixtures.load("plen.c")
     rep = driver.Report("fixture", "quick")
     plen_rule(rep, u, [f for f in u.function_list if f.name.startswith("fx_")])
